@@ -236,7 +236,13 @@ fn gen_token_msg(rng: &mut Rng, token: usize) -> Item {
                 m.set("sid", crate::item::Val::None);
             } else {
                 // presence is what matters: a constructed value may even carry an empty id
-                let n = if rng.chance(1, 8) { 0 } else { rng.urange(1, 32) };
+                // (a constructed value may even carry an empty id, or one longer than the 32 bytes the
+                // wire allows: presence is what the property names)
+                let n = match rng.below(10) {
+                    0 => 0,
+                    1 => *rng.pick(&[33usize, 48, 64, 255, 300]),
+                    _ => rng.urange(1, 32),
+                };
                 m.set("sid", crate::item::Val::Bytes(rng.bytes(n)));
             }
             m
